@@ -27,3 +27,12 @@ pub assume_specification<'a, T: PartialEq<U>, U, A: core::alloc::Allocator>[ <Ve
 pub assume_specification<T: Clone>[ <[T]>::to_vec ](s: &[T]) -> (r: Vec<T>)
     ensures r@.len() == s@.len(),
             forall|i: int| 0 <= i < s@.len() ==> vstd::pervasive::cloned::<T>(s@[i], #[trigger] r@[i]);
+
+// Option::filter: Some(x) is kept exactly when the predicate answers true for it
+pub assume_specification<T, P: FnOnce(&T) -> bool>[ Option::<T>::filter ](o: Option<T>, predicate: P) -> (r: Option<T>)
+    requires o is Some ==> predicate.requires((&o->0,)),
+    ensures
+        o is None ==> r is None,
+        (o is Some && r is Some) ==> r == o && predicate.ensures((&o->0,), true),
+        (o is Some && r is None) ==> predicate.ensures((&o->0,), false),
+;
